@@ -150,6 +150,8 @@ class Session:
         return len(self.raw)
 
     def parse(self, text: str):
+        if self.dead:          # the session ended at its first exception; nothing further is recorded
+            return None
         try:
             obj = parse_version_specifier(text)
             exc = ""
@@ -158,6 +160,8 @@ class Session:
         return self._push({"op": "parse", "a": 0, "b": 0, "text": text, "exc": exc}, obj)
 
     def binop(self, op: str, a: int, b: int):
+        if self.dead or a is None or b is None:          # the session ended at its first exception; nothing further is recorded
+            return None
         x, y = self.objs[a - 1], self.objs[b - 1]
         try:
             obj = (x & y) if op == "and" else (x | y)
@@ -167,6 +171,8 @@ class Session:
         return self._push({"op": op, "a": a, "b": b, "text": "", "exc": exc}, obj)
 
     def invert(self, a: int):
+        if self.dead or a is None:          # the session ended at its first exception; nothing further is recorded
+            return None
         try:
             obj = ~self.objs[a - 1]
             exc = ""
@@ -175,6 +181,8 @@ class Session:
         return self._push({"op": "not", "a": a, "b": 0, "text": "", "exc": exc}, obj)
 
     def reparse(self, a: int):
+        if self.dead or a is None:          # the session ended at its first exception; nothing further is recorded
+            return None
         x = self.objs[a - 1]
         text = ""
         try:
@@ -186,6 +194,8 @@ class Session:
         return self._push({"op": "reparse", "a": a, "b": 0, "text": text, "exc": exc}, obj)
 
     def law(self, name: str, a: int, b: int):
+        if self.dead or a is None or b is None:          # the session ended at its first exception; nothing further is recorded
+            return None
         x, y = self.objs[a - 1], self.objs[b - 1]
         try:
             ev = {"op": "law", "a": a, "b": b, "text": "", "exc": "", "law": name,
